@@ -18,9 +18,18 @@ LEVEL_TEXT = (
 
 
 def _loop_pairs(res, v, rule="L-PAIRS"):
-    """nested `for i in range(len(X) - 1): for j in range(i + 1, len(X))` (or range(len(X)) outside) over the same X."""
+    """nested `for i in range(len(X) - 1): for j in range(i + 1, len(X))` (or range(len(X)) outside) over the same X; lengths
+    and lists held in named temporaries are folded back first."""
     f = v.fi.short
     found = 0
+
+    def length_of(e):
+        """text of X when e is len(X) (through temporaries), else None"""
+        e = v.inline(e)
+        if _is_len(e):
+            return norm(v.inline(e.args[0]))
+        return None
+
     for outer in [n for n in walk_no_nested(v.fi.node) if isinstance(n, ast.For)]:
         if not (isinstance(outer.iter, ast.Call) and isinstance(outer.iter.func, ast.Name) and outer.iter.func.id == "range" and isinstance(outer.target, ast.Name)):
             continue
@@ -30,18 +39,37 @@ def _loop_pairs(res, v, rule="L-PAIRS"):
             i = outer.target.id
             oa, ia = outer.iter.args, inn.iter.args
             X = None
-            ok_outer = False
+            outer_st = "unknown"
             if len(oa) == 1:
-                e = oa[0]
-                if isinstance(e, ast.BinOp) and isinstance(e.op, ast.Sub) and isinstance(e.right, ast.Constant) and e.right.value == 1 and _is_len(e.left):
-                    X, ok_outer = norm(e.left.args[0]), True
-                elif _is_len(e):
-                    X, ok_outer = norm(e.args[0]), True
-                elif isinstance(e, ast.Name):
-                    X, ok_outer = e.id, True  # range(order) with order = len(edges[0]) (uniform hypergraphs)
-            ok_inner = len(ia) == 2 and isinstance(ia[0], ast.BinOp) and isinstance(ia[0].op, ast.Add) and norm(ia[0].left) == i and isinstance(ia[0].right, ast.Constant) and ia[0].right.value == 1
-            same = ok_inner and ((_is_len(ia[1]) and norm(ia[1].args[0]) == X) or (isinstance(ia[1], ast.Name) and ia[1].id == X))
-            res.check(ok_outer and ok_inner and same, rule, f, f"{norm(outer.iter)} / {norm(inn.iter)}", "i<j", "the pair enumeration does not cover every unordered pair i<j of the same list (first / last pair missed, or pairs repeated)", loc(v.fi, outer))
+                e = v.inline(oa[0])
+                if isinstance(e, ast.BinOp) and isinstance(e.op, ast.Sub) and isinstance(e.right, ast.Constant) and isinstance(e.right.value, int) and length_of(e.left) is not None:
+                    X = length_of(e.left)
+                    outer_st = "ok" if e.right.value == 1 else "violation"  # range(len(X) - 2): the last pairs are missed
+                elif length_of(e) is not None:
+                    X, outer_st = length_of(e), "ok"
+                elif isinstance(oa[0], ast.Name) and isinstance(e, ast.Name):
+                    X, outer_st = e.id, "ok"  # range(order) with order = len(edges[0]) (uniform hypergraphs)
+            inner_st = "unknown"
+            if len(ia) == 2:
+                st_ = v.inline(ia[0])
+                if isinstance(st_, ast.BinOp) and isinstance(st_.op, ast.Add) and norm(st_.left) == i and isinstance(st_.right, ast.Constant):
+                    inner_st = "ok" if st_.right.value == 1 else "violation"  # i + 2: neighbouring pairs are missed
+                elif isinstance(st_, ast.Name) and st_.id == i:
+                    inner_st = "violation"  # range(i, ...): every hyperedge is paired with itself
+                end = ia[1]
+                lx = length_of(end)
+                if inner_st == "ok":
+                    if lx is not None:
+                        inner_st = "ok" if (X is None or lx == X) else "violation"  # another list
+                    elif isinstance(end, ast.Name) and X is not None and v.inline(end) is not None and isinstance(v.inline(end), ast.Name) and v.inline(end).id == X:
+                        inner_st = "ok"
+                    else:
+                        ie = v.inline(end)
+                        inner_st = "violation" if isinstance(ie, ast.BinOp) and isinstance(ie.op, ast.Sub) and length_of(ie.left) is not None else "unknown"  # len(X) - 1: the last hyperedge is never second
+            elif len(ia) == 1:
+                inner_st = "violation" if length_of(ia[0]) is not None else "unknown"  # range(len(X)): ordered pairs incl. i == j
+            st = "violation" if "violation" in (outer_st, inner_st) else ("ok" if outer_st == inner_st == "ok" else "unknown")
+            res.add(rule, f, f"{norm(outer.iter)} / {norm(inn.iter)}", "i<j", st, "" if st == "ok" else ("the pair enumeration does not cover every unordered pair i<j of the same list (first / last pair missed, or pairs repeated)" if st == "violation" else "the index ranges of the pair enumeration were not recognised"), loc(v.fi, outer))
     return found
 
 
@@ -154,20 +182,31 @@ def run(ctx):
                     return d.key
             return None
 
+        def collection_of(member_text):
+            """the collection whose member the object `member_text` is: the iterable of the loop that binds it, or X for
+            `member = X[<index>]`"""
+            for n in walk_no_nested(v.fi.node):
+                if isinstance(n, ast.For) and isinstance(n.target, ast.Name) and n.target.id == member_text:
+                    return norm(n.iter)
+                if isinstance(n, ast.Assign) and len(n.targets) == 1 and isinstance(n.targets[0], ast.Name) and n.targets[0].id == member_text and isinstance(n.value, ast.Subscript) and isinstance(n.value.value, ast.Name) and not isinstance(n.value.slice, ast.Slice):
+                    return n.value.value.id
+            return None
+
         for gc in gcalls:
             if gc.meth != "add_edge":
                 continue
-            lp = v.enclosing(gc.node, (ast.For,))
-            if lp is None or not isinstance(lp.target, ast.Name) or len(gc.vargs) != 2:
-                res.unknown("K-VID", f, norm(gc.node), "membership", "link not inside a loop over the members of a hyperedge", loc(v.fi, gc.node))
+            if len(gc.vargs) != 2:
+                res.unknown("K-VID", f, norm(gc.node), "membership", "link arguments not visible", loc(v.fi, gc.node))
                 continue
             os_ = [origin(a) for a in gc.vargs]
             if None in os_:
                 res.unknown("K-VID", f, norm(gc.node), "membership", "the objects behind the two ids were not identified", loc(v.fi, gc.node))
                 continue
-            member, coll = lp.target.id, norm(lp.iter)
-            ok = (os_[0] == coll and os_[1] == member) or (os_[1] == coll and os_[0] == member)
-            res.check(ok, "K-VID", f, norm(gc.node), "membership", "bipartite links do not join a hyperedge with each of ITS nodes", loc(v.fi, gc.node))
+            colls = [collection_of(o) for o in os_]
+            # one end point is a member of the other one
+            ok = colls[1] == os_[0] or colls[0] == os_[1]
+            decided = ok or (colls[0] is not None and colls[1] is not None)
+            res.add("K-VID", f, norm(gc.node), "membership", "ok" if ok else ("violation" if decided else "unknown"), "" if ok else ("bipartite links do not join a hyperedge with each of ITS nodes" if decided else "which collection the linked node is taken from was not recognised"), loc(v.fi, gc.node))
     # ---- line graphs
     with res.guard("line graphs"):
         for d in ("projections.line_graph", "projections.directed_line_graph"):
@@ -220,6 +259,11 @@ def run(ctx):
                 if not n_found and not combs:
                     res.unknown("L-PAIRS", vv.fi.short, "pair enumeration", "i<j", "no pair enumeration recognised (index loops / itertools.combinations)", loc(vv.fi, vv.fi.node))
         # the pair loops of the line graph range over the complete incident lists
+        with res.guard("L-PREFILTER"):
+            from ._vid import check_line_graph_prefilter
+
+            res.rules["L-PREFILTER"] = "a size pre-filter in front of the pair comparison of the s-line graph keeps every hyperedge with at least s nodes"
+            check_line_graph_prefilter(ctx, res)
         with res.guard("incident lists of the line graph"):
             v = ctx.view("projections.line_graph")
             found = 0
